@@ -545,6 +545,10 @@ func substringIndFunc(arg1, arg2 query, after bool) func(query, iterator) interf
 			word = node.Value()
 		}
 		if word == "" {
+			// the empty string is found at the very start: nothing before it, everything after it
+			if after {
+				return str
+			}
 			return ""
 		}
 
